@@ -14,12 +14,13 @@ Local Open Scope N_scope.
 (* ---- bigWig: the model writer's verdict, both pass modes, is the rule's verdict; and the rule
    accepts exactly the non-empty streams in which every value has start <= end <= chromosome
    size, a value's successor on the same chromosome starts at or after its end, every chromosome
-   is in the size table, and (sorted input required) a change of chromosome goes strictly up ---- *)
+   is in the size table, no chromosome comes back after another one, and (sorted input required)
+   a change of chromosome goes strictly up ---- *)
 Theorem C13_bw_accept_iff : forall fp o sizes input, opts_ok o = true ->
   verdict (bw_write fp o sizes input) = rule_verdict bw_val_class (o_sort_all o) sizes input
   /\ verdict (bw_write_multipass fp o sizes input) = rule_verdict bw_val_class (o_sort_all o) sizes input
   /\ (rule_verdict bw_val_class (o_sort_all o) sizes input = Ok tt
-      <-> input <> [] /\ stream_ok bw_good_val bw_good_pair (o_sort_all o) sizes None input).
+      <-> input <> [] /\ stream_ok bw_good_val bw_good_pair (o_sort_all o) sizes [] None input).
 Proof.
   intros fp o sizes input Ho.
   assert (Hi : 0 < o_ips o) by (apply opts_ok_spec in Ho; lia).
@@ -37,7 +38,7 @@ Print Assumptions C13_bw_accept_iff.
 Theorem C13_bb_accept_iff : forall sort_all sizes (items : list (name * entry)),
   serial bb_check_val sort_all sizes (ok_lines items) = rule_verdict bb_val_class sort_all sizes items
   /\ (rule_verdict bb_val_class sort_all sizes items = Ok tt
-      <-> items <> [] /\ stream_ok bb_good_val bb_good_pair sort_all sizes None items).
+      <-> items <> [] /\ stream_ok bb_good_val bb_good_pair sort_all sizes [] None items).
 Proof.
   intros sort_all sizes items. split.
   - rewrite (serial_ext bb_check_val (chk_of bb_val_class) bb_check_val_class). apply serial_rule.
@@ -48,7 +49,7 @@ Print Assumptions C13_bb_accept_iff.
 (* ---- position independence: an item that is offending where it stands (given its neighbours)
    makes the call an error wherever in the stream that is ---- *)
 Theorem C13_position_independent : forall fp o sizes pre x post k, opts_ok o = true ->
-  item_class bw_val_class (o_sort_all o) sizes (last_opt pre) x (hd_error post) = Some k ->
+  item_class bw_val_class (o_sort_all o) sizes (seen_at [] None pre) (last_opt pre) x (hd_error post) = Some k ->
   exists k', verdict (bw_write fp o sizes (pre ++ x :: post)) = Err k'
              /\ verdict (bw_write_multipass fp o sizes (pre ++ x :: post)) = Err k'.
 Proof.
@@ -60,7 +61,7 @@ Qed.
 Print Assumptions C13_position_independent.
 
 Theorem C13_bb_position_independent : forall sort_all sizes pre (x : name * entry) post k,
-  item_class bb_val_class sort_all sizes (last_opt pre) x (hd_error post) = Some k ->
+  item_class bb_val_class sort_all sizes (seen_at [] None pre) (last_opt pre) x (hd_error post) = Some k ->
   exists k', serial bb_check_val sort_all sizes (ok_lines (pre ++ x :: post)) = Err k'.
 Proof.
   intros sort_all sizes pre x post k Hc.
@@ -164,6 +165,12 @@ Example C13_example_classes :
       [ []; [(c1, val 5 4)]; [(c1, val 0 101)]; [(c1, val 0 10); (c1, val 9 20)]; [(c2, val 0 1); (c1, val 0 1)];
         [([99], val 0 1)]; ex_good ++ [(c2, val 4 6)] ]
   = [Err E_EMPTY; Err E_START_GT_END; Err E_END_GT_CHROM; Err E_OVERLAP; Err E_CHROM_ORDER; Err E_UNKNOWN_CHROM; Err E_OVERLAP].
+Proof. vm_compute. reflexivity. Qed.
+(* chromosome order not required: c2 before c1 is fine, c1 coming back is not *)
+Example C13_example_split :
+  map (rule_verdict bw_val_class false ex_sizes)
+      [ [(c2, val 0 1); (c1, val 0 1)]; [(c1, val 0 1); (c2, val 0 1); (c1, val 5 6)] ]
+  = [Ok tt; Err E_SPLIT].
 Proof. vm_compute. reflexivity. Qed.
 Example C13_example_bb :
   map (rule_verdict bb_val_class true ex_sizes)
